@@ -26,7 +26,7 @@ func init() {
 			if tier == "quick" {
 				return 2560
 			}
-			return 12800
+			return 38400
 		},
 		Run:      runC07,
 		Required: []string{"pairs.synthetic", "pairs.evolved", "pattern.empty_overlap", "pattern.prefix", "pattern.interleaved", "pattern.identical", "pattern.excess_tail", "pattern.one_empty"},
